@@ -185,4 +185,6 @@ def AuthResponseFormPost (_now : Int) (redirectURI : String) (_p : RespParams) (
   if e.formPostFails then .error "ErrServerError" else .ok [.formPost redirectURI]
 /-- the anonymous `codeResponse` struct of `AuthResponseCode` -/
 def codeResponse (_code _state _sessionState : String) : RespParams := { kind := "code" }
+/-- the anonymous struct of `AuthResponseToken`: the token response with the session state next to it -/
+def tokenResponse (resp : RespParams) (_sessionState : String) : RespParams := resp
 end Hand
